@@ -14,8 +14,10 @@ import Chiritori.Props.C05
   * `idempotent_of_nothing_ready`: a second cleaning changes nothing whenever the first result contains no ready
     element (C04 applied to the result);
   * `skip_stays`, `unregistered_stays`: skipped / unregistered elements are never ready at any step.
-  Not proved: that the result of a cleaning contains no ready element, and the composition law itself (they need
-  the refinement theorem `clean ≈ render ∘ prune` over AST documents, which is not built).
+  * `idempotent_default` (Props/C19Idem.lean): clean (clean src) = clean src for default-strategy removals in
+    well-delimited sources - the refinement chain from extents over tokens and the pruned forest to the tokens of
+    the output.
+  Not proved: idempotence with unwrapped blocks, and the composition law.
 -/
 namespace Chiritori.Props.C19
 open Chiritori Chiritori.Spec
